@@ -85,6 +85,11 @@ def discharge(P, extra_hyps, goal, timeout_ms):
     g = z3.simplify(goal)
     if z3.is_true(g):
         return "proved", 0.0, None, "simplifier"
+    if z3.is_false(g) and not extra_hyps:
+        # the clause is false outright on this (feasible) path: any model of the path is a countermodel
+        if _path_feasible(P):
+            return "refuted", time.time() - t0, model_dict(P.solver.model()), "simplifier+z3(path model)"
+        return "unknown", time.time() - t0, None, "path feasibility undecided"
     if len(P.axioms) + len(P.assumes) + len(P.pc) > SLICE_THRESHOLD:
         return _discharge_sliced(P, extra_hyps, goal, timeout_ms, t0)
     s = P.solver
@@ -94,25 +99,23 @@ def discharge(P, extra_hyps, goal, timeout_ms):
         for h in extra_hyps:
             s.add(h)
         s.add(z3.Not(goal))
-        r = s.check()
-        rounds = 0
-        while r == z3.sat and rounds < REFINE_ROUNDS:
-            # counterexample-guided refinement of the uninterpreted products: every lemma added
-            # is a true instance of field / integer multiplication, so `unsat` stays a proof and
-            # a model that survives is exact on every product that occurs
-            lem = _product_lemmas(P, s.model())
-            if not lem:
-                break
-            rounds += 1
-            for f in lem:
-                s.add(f)
-            r = s.check()
+        # counterexample-guided refinement of the uninterpreted products: every lemma added
+        # is a true instance of field / integer multiplication, so `unsat` stays a proof and
+        # a model that survives is exact on every product that occurs
+        r, rounds, exact = solve_refining(s, P, timeout_ms)
         if r == z3.unsat:
             return "proved", time.time() - t0, None, "z3" if rounds == 0 else "z3+refine%d" % rounds
+        if r == z3.sat and exact:
+            return "refuted", time.time() - t0, (getattr(s, "_exact_model", None) or model_dict(s.model())), "z3"
+        try:
+            allh = P.hyps() + list(extra_hyps)
+            cm = concrete_refute(P, cone_of_influence(allh, [goal]), goal)
+        except Exception:
+            cm = None
+        if cm is not None:
+            return "refuted", time.time() - t0, cm, "concrete evaluation"
         if r == z3.sat:
-            if _product_lemmas(P, s.model()):
-                return "unknown", time.time() - t0, None, "z3 (abstract countermodel not concretised in %d rounds)" % rounds
-            return "refuted", time.time() - t0, model_dict(s.model()), "z3"
+            return "unknown", time.time() - t0, None, "z3 (abstract countermodel not concretised in %d rounds)" % rounds
         smt = s.to_smt2()
     finally:
         s.pop()
@@ -162,6 +165,202 @@ def cone_of_influence(hyps, seeds):
     return picked
 
 
+_SMALL = [0, 1, 2, 3, -1, 5, 7, -2, 4, 11, 6, -3]
+
+
+def concrete_refute(P, hyps, goal, tries=6, seed=0):
+    """Quick falsification before any solving: assign small concrete values to the input
+    symbols, extend to every derived symbol by its definition and to every product / quotient
+    application by true arithmetic, and evaluate.  A hit (all hypotheses true, goal false) is
+    an exact countermodel; a miss decides nothing."""
+    import random
+    p = P.p
+    fs = list(hyps) + [goal]
+    atoms = {}
+    for f in fs:
+        for e in _consts(f):
+            atoms[e.get_id()] = e
+    defined = {v.get_id(): d for v, d in P.defs}
+    inputs = [e for k, e in atoms.items() if k not in defined]
+    if any(z3.is_array(e) for e in inputs):
+        return None
+    apps = []
+    for (t, a, b) in P._imul.values():
+        apps.append((t.get_id(), "imul", t, a, b))
+    for (u, a, b) in P._fmul.values():
+        apps.append((u.get_id(), "fmul", u, a, b))
+    for key, (q, mm) in P._idiv.items():
+        apps.append((q.get_id(), "idiv", (q, mm), q.arg(0), q.arg(1)))
+    order = sorted([(v.get_id(), "def", v, d, None) for v, d in P.defs if v.get_id() in atoms] + apps, key=lambda x: x[0])
+    rnd = random.Random(seed)
+    for attempt in range(tries):
+        subs = []
+        for e in inputs:
+            if z3.is_bool(e):
+                subs.append((e, z3.BoolVal(True if attempt % 2 == 0 else rnd.random() < 0.5)))
+            else:
+                k = _SMALL[(attempt + rnd.randrange(len(_SMALL))) % len(_SMALL)] if attempt else _SMALL[rnd.randrange(4)]
+                subs.append((e, z3.IntVal(k)))
+
+        def val(t):
+            r = z3.simplify(z3.substitute(t, *subs)) if subs else z3.simplify(t)
+            if z3.is_int_value(r):
+                return r.as_long()
+            raise ValueError("not concrete")
+        try:
+            for _, kind, t, a, b in order:
+                try:
+                    if kind == "def":
+                        if a is None:
+                            subs.append((t, z3.BoolVal(True) if z3.is_bool(t) else z3.IntVal(0)))
+                        else:
+                            subs.append((t, z3.IntVal(a(val))))
+                        continue
+                    a0, b0 = val(a), val(b)
+                except ValueError:
+                    continue          # over symbols outside this obligation's cone: irrelevant here
+                if kind == "imul":
+                    subs.append((t, z3.IntVal(a0 * b0)))
+                    subs.append((sym._IMUL(b, a), z3.IntVal(a0 * b0)))
+                elif kind == "fmul":
+                    subs.append((t, z3.IntVal((a0 * b0) % p)))
+                    subs.append((sym._FMUL(b, a), z3.IntVal((a0 * b0) % p)))
+                else:
+                    if b0 == 0:
+                        raise ValueError("zero divisor")
+                    subs.append((t[0], z3.IntVal(a0 // b0)))
+                    subs.append((t[1], z3.IntVal(a0 % b0)))
+            g = z3.simplify(z3.substitute(goal, *subs))
+            if not z3.is_false(g):
+                continue
+            if globals().get("DEBUG_REFUTE"):
+                for h in hyps:
+                    hv = z3.simplify(z3.substitute(h, *subs))
+                    if not z3.is_true(hv):
+                        print("HYP NOT TRUE:", str(h)[:300], "=>", str(hv)[:200])
+            if all(z3.is_true(z3.simplify(z3.substitute(h, *subs))) for h in hyps):
+                return {str(e): (x.as_long() if z3.is_int_value(x) else str(x)) for e, x in subs
+                        if z3.is_const(e) and e.decl().kind() == z3.Z3_OP_UNINTERPRETED}
+        except (ValueError, ZeroDivisionError, z3.Z3Exception) as e_:
+            if globals().get("DEBUG_REFUTE"):
+                print("refuter exception:", type(e_).__name__, str(e_)[:300])
+            continue
+    return None
+
+
+def repair_model(s, P, m, within=None):
+    """Try to turn an abstract countermodel into an exact one without further solving: keep the
+    model's values of the atomic symbols, recompute every product / quotient application with
+    true arithmetic (innermost first), and evaluate all assertions under that assignment.
+    Returns the exact assignment (dict) when every assertion evaluates to true, else None."""
+    p = P.p
+    asserts = list(s.assertions())
+    atoms = {}
+    for f in asserts:
+        for e in _consts(f):
+            atoms[e.get_id()] = e
+    subs = []
+    for e in atoms.values():
+        v = m.eval(e, model_completion=True)
+        if z3.is_int_value(v) or z3.is_true(v) or z3.is_false(v):
+            subs.append((e, v))
+        elif not z3.is_array(e):
+            return None
+    def val(t):
+        r = z3.simplify(z3.substitute(t, *subs)) if subs else z3.simplify(t)
+        return r.as_long() if z3.is_int_value(r) else None
+    apps = []
+    for (t, a, b) in P._imul.values():
+        apps.append((t.get_id(), "imul", t, a, b))
+    for (u, a, b) in P._fmul.values():
+        apps.append((u.get_id(), "fmul", u, a, b))
+    for key, (q, mm) in P._idiv.items():
+        apps.append((q.get_id(), "idiv", (q, mm), q.arg(0), q.arg(1)))
+    apps.sort(key=lambda x: x[0])              # creation order: arguments before applications
+    for _, kind, t, a, b in apps:
+        a0, b0 = val(a), val(b)
+        if a0 is None or b0 is None:
+            continue
+        if kind == "imul":
+            subs.append((t, z3.IntVal(a0 * b0)))
+            subs.append((sym._IMUL(b, a), z3.IntVal(a0 * b0)))
+        elif kind == "fmul":
+            subs.append((t, z3.IntVal((a0 * b0) % p)))
+            subs.append((sym._FMUL(b, a), z3.IntVal((a0 * b0) % p)))
+        else:
+            if b0 == 0:
+                return None
+            subs.append((t[0], z3.IntVal(a0 // b0)))
+            subs.append((t[1], z3.IntVal(a0 % b0)))
+    for f in asserts:
+        r = z3.simplify(z3.substitute(f, *subs))
+        if not z3.is_true(r):
+            return None
+    return {str(e): (v.as_long() if z3.is_int_value(v) else str(v)) for e, v in subs if z3.is_const(e) and e.decl().kind() == z3.Z3_OP_UNINTERPRETED}
+
+
+def _consts(f):
+    seen, out, stack = set(), [], [f]
+    while stack:
+        e = stack.pop()
+        if e.get_id() in seen:
+            continue
+        seen.add(e.get_id())
+        if z3.is_const(e) and e.decl().kind() == z3.Z3_OP_UNINTERPRETED:
+            out.append(e)
+        stack.extend(e.children())
+    return out
+
+
+def solve_refining(s, P, timeout_ms, within=None):
+    """check() with counterexample-guided refinement of the uninterpreted products, under an
+    overall deadline.  Returns (result, rounds, exact) -- exact: the final model (if sat) is
+    consistent with true multiplication on every product considered."""
+    deadline = time.time() + 2.0 * timeout_ms / 1000.0
+    r = s.check()
+    rounds = 0
+    s._exact_model = None
+    while r == z3.sat:
+        lem = _product_lemmas(P, s.model(), within)
+        if not lem:
+            return r, rounds, True
+        try:
+            fixed = repair_model(s, P, s.model(), within)
+        except Exception:
+            fixed = None
+        if fixed is not None:
+            s._exact_model = fixed
+            return r, rounds, True
+        if rounds >= REFINE_ROUNDS or time.time() > deadline:
+            return r, rounds, False
+        rounds += 1
+        s.add(*lem)
+        left = int(max(1.0, deadline - time.time()) * 1000)
+        s.set("timeout", min(timeout_ms, left))
+        r = s.check()
+    return r, rounds, True
+
+
+def _symset(fs):
+    out = set()
+    for f in fs:
+        out |= _syms(f)
+    return out
+
+
+def _path_feasible(P):
+    """The path condition with all assumptions is satisfiable.  Every decision was checked
+    satisfiable when it was taken; `unknown` here (huge ground runs) is resolved in favour of
+    feasibility only when nothing but definitional axioms exist (no contract assumptions)."""
+    r = getattr(P, "_feasible", None)
+    if r is None:
+        P.solver.set("timeout", 10000)
+        res = P.solver.check()
+        P.solver.set("timeout", 3000)
+        r = P._feasible = (res == z3.sat) or (res == z3.unknown and not P.pc)
+    return r
+
+
 def _discharge_sliced(P, extra_hyps, goal, timeout_ms, t0):
     hyps = cone_of_influence(P.hyps(), [goal] + list(extra_hyps))
     s = z3.Solver()
@@ -169,43 +368,36 @@ def _discharge_sliced(P, extra_hyps, goal, timeout_ms, t0):
     s.add(*hyps)
     s.add(*extra_hyps)
     s.add(z3.Not(goal))
-    r = s.check()
-    rounds = 0
-    while r == z3.sat and rounds < REFINE_ROUNDS:
-        lem = _product_lemmas(P, s.model())
-        if not lem:
-            break
-        rounds += 1
-        s.add(*lem)
-        r = s.check()
+    within = _symset(hyps) | _symset([goal] + list(extra_hyps))
+    r, rounds, exact = solve_refining(s, P, timeout_ms, within)
     if r == z3.unsat:
-        return "proved", time.time() - t0, None, "z3/sliced"
+        return "proved", time.time() - t0, None, "z3/sliced" + ("+refine%d" % rounds if rounds else "")
     if r == z3.sat:
-        # a countermodel of the slice is a countermodel only if the full hypothesis set agrees
-        s2 = z3.Solver()
-        s2.set("timeout", timeout_ms)
-        s2.add(*P.hyps())
-        s2.add(*extra_hyps)
-        s2.add(z3.Not(goal))
-        r2 = s2.check()
-        if r2 == z3.unsat:
-            return "proved", time.time() - t0, None, "z3"
-        if r2 == z3.sat and not _product_lemmas(P, s2.model()):
-            return "refuted", time.time() - t0, model_dict(s2.model()), "z3"
-        return "unknown", time.time() - t0, None, "z3 (sliced countermodel not confirmed on the full hypothesis set)"
+        # The slice is closed under symbol sharing, so the remaining hypotheses are an independent
+        # subproblem: a model of the slice extends to the full set iff the rest is satisfiable,
+        # which it is on a feasible path (checked once per path).
+        if not exact:
+            return "unknown", time.time() - t0, None, "z3 (abstract countermodel not concretised)"
+        if _path_feasible(P):
+            return "refuted", time.time() - t0, (s._exact_model or model_dict(s.model())), "z3/sliced"
+        return "unknown", time.time() - t0, None, "z3 (path feasibility undecided)"
     v = _cvc5(s.to_smt2(), timeout_ms)
     if v == "unsat":
         return "proved", time.time() - t0, None, "cvc5/sliced"
     return "unknown", time.time() - t0, None, "z3+cvc5"
 
 
-def _product_lemmas(P, m):
+def _product_lemmas(P, m, within=None):
     """Instances of exact multiplication at the model's argument values, for every
-    uninterpreted product application the model gets wrong."""
+    uninterpreted product application the model gets wrong (restricted to the products
+    over the symbols `within`, when given)."""
     out = []
     p = P.p
     ev = lambda t: m.eval(t, model_completion=True)
+    rel = (lambda t: True) if within is None else (lambda t: _syms(t) <= within)
     for (u, a, b) in list(P._fmul.values()):
+        if not rel(u):
+            continue
         try:
             a0, b0, u0 = ev(a).as_long(), ev(b).as_long(), ev(u).as_long()
         except Exception:
@@ -214,6 +406,8 @@ def _product_lemmas(P, m):
             out.append(z3.Implies(a == a0, u == (a0 * b) % p))
             out.append(z3.Implies(b == b0, u == (b0 * a) % p))
     for (t, a, b) in list(P._imul.values()):
+        if not rel(t):
+            continue
         try:
             a0, b0, t0 = ev(a).as_long(), ev(b).as_long(), ev(t).as_long()
         except Exception:
@@ -446,27 +640,43 @@ def run_config(contract, cfg, facets="VCSTRN", prime=None, tier="quick", max_pat
 
 
 def _discharge_standalone(hyps, goal, timeout_ms):
+    """Obligation with its own hypothesis snapshot (call-site and loop obligations)."""
     t0 = time.time()
     goal = formula(goal)
     if z3.is_true(z3.simplify(goal)):
         return "proved", 0.0, None, "simplifier"
-    if len(hyps) > SLICE_THRESHOLD:
-        sl = cone_of_influence(hyps, [goal])
-        s = z3.Solver()
-        s.set("timeout", timeout_ms)
-        s.add(*sl)
-        s.add(z3.Not(goal))
-        if s.check() == z3.unsat:
-            return "proved", time.time() - t0, None, "z3/sliced"
+    P = sym.cur()
+    sl = cone_of_influence(hyps, [goal])
+    within = _symset(sl) | _syms(goal)
+    # 1. the slice, short budget
+    s = z3.Solver()
+    s.set("timeout", min(timeout_ms, 3000))
+    s.add(*sl)
+    s.add(z3.Not(goal))
+    r, rounds, exact = solve_refining(s, P, min(timeout_ms, 3000), within)
+    if r == z3.unsat:
+        return "proved", time.time() - t0, None, "z3/sliced"
+    if r == z3.sat and exact and _path_feasible(P):
+        return "refuted", time.time() - t0, (s._exact_model or model_dict(s.model())), "z3/sliced"
+    # 2. quick falsification by concrete evaluation (exact countermodel or nothing)
+    try:
+        cm = concrete_refute(P, sl, goal)
+    except Exception:
+        cm = None
+    if cm is not None:
+        return "refuted", time.time() - t0, cm, "concrete evaluation"
+    # 3. full budget
     s = z3.Solver()
     s.set("timeout", timeout_ms)
-    s.add(*hyps)
-    s.add(z3.Not(formula(goal)))
-    r = s.check()
+    s.add(*sl)
+    s.add(z3.Not(goal))
+    r, rounds, exact = solve_refining(s, P, timeout_ms, within)
     if r == z3.unsat:
-        return "proved", time.time() - t0, None, "z3"
+        return "proved", time.time() - t0, None, "z3/sliced"
     if r == z3.sat:
-        return "refuted", time.time() - t0, model_dict(s.model()), "z3"
+        if exact and _path_feasible(P):
+            return "refuted", time.time() - t0, (s._exact_model or model_dict(s.model())), "z3/sliced"
+        return "unknown", time.time() - t0, None, "z3 (abstract countermodel not concretised)"
     v = _cvc5(s.to_smt2(), timeout_ms)
     if v == "unsat":
         return "proved", time.time() - t0, None, "cvc5"
